@@ -21,5 +21,13 @@ for p in $PROPS; do
   done
   echo "$p: $(wc -l < $T/$p.1) seeds x 4 processes done"
 done
+# the race build (edge-free hand-off) must execute exactly the same schedules as the normal build
+if [ -x bin/walsim-race ]; then
+  for p in C06 C14; do
+    bin/walsim sig -prop $p -seed 1000 -n 60 > $T/$p.n
+    GOMAXPROCS=1 bin/walsim-race sig -prop $p -seed 1000 -n 60 > $T/$p.r 2>/dev/null
+    if cmp -s $T/$p.n $T/$p.r; then echo "$p: race build = normal build on 60 seeds"; else echo "NONDETERMINISTIC $p: race build differs from normal build"; bad=1; fi
+  done
+fi
 rm -rf $T
 exit $bad
